@@ -264,6 +264,13 @@ def replay(ctx, binary, scripts):
         rejects += r[1]
         nd = sum(1 for d in ctx.drift[nd0:] if d.get("trace") == "contactapi%d" % k)
         conformant += (r[0] - nd) if nd < 3 else 0
+    for d in ctx.drift[nd0:]:           # keep the drift records readable: the fields the model disagrees about
+        ln = (d.get("info") or {}).get("line") or {}
+        if isinstance(ln, dict) and "st" in ln:
+            d["info"]["line"] = {k: ln.get(k) for k in ("ev", "i", "s", "c", "ok", "codes", "app", "arg", "reply", "sec", "opn") if k in ln}
+            d["info"]["line"]["reported"] = {k: ln["st"].get(k, {}).get(ln.get("c")) if isinstance(ln["st"].get(k), dict) else ln["st"].get(k)
+                                             for k in ("cs", "cseed", "cmeta", "cown", "sw", "seed")}
+            d["note"] = "RPC layer: the recorded step is not the ContactApi.tla action (outcome, reported state, or the secret-store / opened-group observation differs)"
     # the counters validate_blocks keeps are not thread-safe: set them from the per-group results
     ctx.traces_validated = tv0 + sum(r[0] for r in results)
     ctx.extra["conformant_traces"] = ct0 + conformant
